@@ -229,8 +229,11 @@ def matrices(sch):
                 out.append(typecheck_case(sch, ("call", fn, tuple(args)), kind="typecheck-value"))
     # value expressions with [*]
     for fi, (name, t, opt) in enumerate(sch.fields):
-        for idx in [(), ("each",), (("a", 0),), (("k", b"a"),), (("a", 0), "each")]:
-            out.append(typecheck_case(sch, ("field", fi) + idx, kind="typecheck-value"))
+        # every index sequence up to length 3 over {[0], ["a"], [*]}: [*] in leading, middle and trailing position
+        steps = [("a", 0), ("k", b"a"), "each"]
+        for n in range(0, 4):
+            for idx in itertools.product(steps, repeat=n):
+                out.append(typecheck_case(sch, ("field", fi) + tuple(idx), kind="typecheck-value"))
     return out
 
 
